@@ -1,6 +1,10 @@
 // C19 freshness stage: every secret handed out is a slice of the OS stream that no earlier value used.
 //
-//	c19 fresh <seed> <srp calls> <log-out>
+//	c19 fresh <seed> <srp calls> <log-out> [stream seed]
+//
+// <seed> fixes the order of the draws, <stream seed> (default: <seed>) the bytes the source serves; the
+// check runs the same order against two different streams: a secret that does not change with the
+// stream does not come from it.
 //
 // crypto/rand.Reader (an exported variable; crypto/rand.Read and rand.Int read through it) is
 // replaced by a recording reader that serves a fixed pseudo-random stream in which every 8-byte
@@ -38,6 +42,7 @@ import (
 	"math/big"
 	"os"
 	"strconv"
+	"sync"
 
 	ige "github.com/xelaj/mtproto/internal/aes_ige"
 	"github.com/xelaj/mtproto/internal/encoding/tl"
@@ -52,6 +57,7 @@ const streamLen = 1 << 19
 type read struct{ call, off, n int }
 
 type recorder struct {
+	mu     sync.Mutex
 	stream []byte
 	index  map[uint64]int // 8-byte window -> offset
 	pos    int
@@ -78,6 +84,8 @@ func newRecorder(seed uint64) *recorder {
 }
 
 func (r *recorder) Read(p []byte) (int, error) {
+	r.mu.Lock()
+	defer r.mu.Unlock()
 	if r.pos+len(p) > len(r.stream) {
 		fmt.Fprintln(os.Stderr, "c19 fresh: recording stream exhausted")
 		os.Exit(3)
@@ -86,6 +94,25 @@ func (r *recorder) Read(p []byte) (int, error) {
 	r.reads = append(r.reads, read{r.call, r.pos, len(p)})
 	r.pos += len(p)
 	return len(p), nil
+}
+
+func (r *recorder) setCall(c int) { r.mu.Lock(); r.call = c; r.mu.Unlock() }
+
+func (r *recorder) nreads() int { r.mu.Lock(); defer r.mu.Unlock(); return len(r.reads) }
+
+func (r *recorder) readsSince(k int) []read {
+	r.mu.Lock()
+	defer r.mu.Unlock()
+	return append([]read(nil), r.reads[k:]...)
+}
+
+func (r *recorder) dump(f *os.File) {
+	r.mu.Lock()
+	defer r.mu.Unlock()
+	for i, rd := range r.reads {
+		fmt.Fprintf(f, "R\t%d\t%d\t%d\t%d\n", i, rd.call, rd.off, rd.n)
+	}
+	fmt.Fprintf(f, "S\t%d\n", r.pos)
 }
 
 // locate: offset of v in the part of the stream served so far, -1 if it is not there
@@ -133,8 +160,8 @@ func (r *recorder) pieces(v []byte) string {
 
 func pad(b *big.Int, n int) []byte { return b.FillBytes(make([]byte, n)) }
 
-func fresh(seed int64, srpCalls int, out string) {
-	rec := newRecorder(uint64(seed))
+func fresh(seed int64, srpCalls int, out string, streamSeed uint64) {
+	rec := newRecorder(streamSeed)
 	rand.Reader = rec
 	f, err := os.Create(out)
 	if err != nil {
@@ -148,7 +175,7 @@ func fresh(seed int64, srpCalls int, out string) {
 	}
 	nonce := func() { c := next(); hand("H", "nonce", c, pad(tl.RandomInt128().Int, 16)) }
 	newNonce := func() { c := next(); hand("H", "new_nonce", c, pad(tl.RandomInt256().Int, 32)) }
-	ga, prime := big.NewInt(5), big.NewInt(1000003)
+	ga, prime := big.NewInt(5), dhPrime2048
 	dhB := func() {
 		c := next()
 		b, _, _ := imath.MakeGAB(3, ga, prime)
@@ -244,16 +271,13 @@ func fresh(seed int64, srpCalls int, out string) {
 			padding(pick.Intn(16))
 		}
 	}
-	for i, rd := range rec.reads {
-		fmt.Fprintf(f, "R\t%d\t%d\t%d\t%d\n", i, rd.call, rd.off, rd.n)
-	}
-	fmt.Fprintf(f, "S\t%d\n", rec.pos)
+	rec.dump(f)
 	fmt.Printf("fresh: %d calls, %d reads, %d bytes served\n", rec.call, len(rec.reads), rec.pos)
 }
 
 func freshMain(args []string) {
-	if len(args) != 3 {
-		fmt.Fprintln(os.Stderr, "usage: c19 fresh <seed> <srp calls> <log-out>")
+	if len(args) != 3 && len(args) != 4 {
+		fmt.Fprintln(os.Stderr, "usage: c19 fresh <seed> <srp calls> <log-out> [stream seed]")
 		os.Exit(2)
 	}
 	seed, err1 := strconv.ParseInt(args[0], 10, 64)
@@ -262,5 +286,9 @@ func freshMain(args []string) {
 		fmt.Fprintln(os.Stderr, "c19 fresh: bad arguments")
 		os.Exit(2)
 	}
-	fresh(seed, n, args[2])
+	sseed := uint64(seed)
+	if len(args) == 4 {
+		sseed, _ = strconv.ParseUint(args[3], 10, 64)
+	}
+	fresh(seed, n, args[2], sseed)
 }
